@@ -27,7 +27,7 @@ Here is a semantic property that the repository is supposed to satisfy:
   Statement: {p['statement']}
   Quantified over: {p['quantifier']['text']}
 
-{("Two changes were already produced for this property by someone else; do something DIFFERENT in mechanism and location (another code site, another input feature, another sub-command flag, a runtime/ordering/crash aspect instead of a pure data bug, ...). Already taken:" + chr(10) + chr(10).join("  - " + t for t in taken) + chr(10)) if taken and rnd else ""}
+{("Several changes were already produced for this property by others; do something DIFFERENT in mechanism and location (another code site, another input feature, another sub-command flag, a runtime/ordering/crash aspect instead of a pure data bug, ...). Already taken:" + chr(10) + chr(10).join("  - " + t for t in taken) + chr(10)) if taken and rnd else ""}
 Your task: produce TWO different, independent, realistic changes (bugs a developer could plausibly introduce in a refactoring or feature change) to the repository's non-test source code (Go files or .tmpl templates; not tests, not testdata, not goldens) such that, for each change separately:
   1. the repository still compiles (`go build ./...`) and the ENTIRE existing test suite still passes unchanged (`go test -vet=off -count=1 ./...`);
   2. the property above is violated for SOME input, but NOT in ordinary, first-try use: the violation must need something specific to manifest — an unusual input shape, a particular combination of flags/directives, a multi-step sequence of operations, a boundary value, or two cooperating code sites that each look fine alone. A change that breaks the common path (e.g. the README example) is not wanted;
